@@ -1,6 +1,7 @@
 //! Correspondence harness for fixed-buffer (blocking crate).  Runs the real code and
 //! prints one line per explored case for the Lean driver (`fbvdriver`).
 mod ad;
+mod big;
 mod df;
 mod es;
 mod pl;
@@ -117,6 +118,16 @@ fn main() {
             walk_sizes!(rng, walks, steps, w, wt, 4, 7, 8, 16, 32, 33, 64, 255);
             walk_sizes!(rng, (walks / 6).max(1), steps / 2, w, wt, 4096);
             eprintln!("STAT t1_total states={} transitions={} capped={} walk_transitions={}", tot.0, tot.1, tot.2, wt);
+        }
+        "big" => {
+            let mut bn = 0usize;
+            macro_rules! big_run { ($n:expr, $w:expr, $tot:expr) => { $tot += big::run_size::<$n>($w); } }
+            with_big_sizes!(big_run, &mut w, bn);
+            // half-gigabyte inputs: release builds always, dev builds (much slower) in the thorough tier
+            if thorough || !cfg!(debug_assertions) {
+                bn += big::huge_inputs(&mut w);
+            }
+            eprintln!("STAT big scenarios={} sizes={:?}", bn, BIG_SIZES);
         }
         "df" => df::run(thorough, seed, &mut w),
         "chain" | "take" => ad::run(&mode, thorough, seed, &mut w),
